@@ -12,7 +12,7 @@ CLAIMED = {
              "SIMD kernels are modelled (compress^n), not verified.",
         note="Trusted: Lean kernel; axioms propext/Classical.choice/Quot.sound; the correspondence harness "
              "(differential, bounded by its generators); Spec/*.lean transcriptions (tested on vectors); OpenSSL as "
-             "independent oracle. End-to-end history theorem still partial (see DESIGN.md status).",
+             "independent oracle. Open: proof that the loop fuel of the model always suffices (run = some).",
         technique="Lean 4 proof over hand-written model + differential correspondence per family",
         engine="HashMB", ref="4.1, 5 C01"),
 }
@@ -40,6 +40,19 @@ CLAIMED["C11"] = dict(
          "(Props/C11.lean isalCode) and tied by the public-API monitor on the dispatched family only.",
     technique="Lean 4 proof over hand-written model + differential correspondence + byte-compare monitor",
     engine="HashMB", ref="5 C11")
+
+CLAIMED["C15"] = dict(
+    text="Proof (Lean 4): theorem C01/C15 hold for every stream below 2^61 bytes with no other size hypothesis, so "
+         "totals crossing 2^29, 2^32, 2^32+2^29 at any residue are inside the quantifier; running total = sum of "
+         "segment lengths; 64-bit bit-length field; packed lane words (blocks<<shift|lane) fit below the idle marker "
+         "and order lexicographically. Tie: every one of the 28 family managers really hashes streams crossing the "
+         "totals (segments up to 2^32-1 bytes on an aliased 4 GiB window); all intermediate digests/totals compared "
+         "with the Lean model, final digest with OpenSSL.",
+    note="Trusted: Lean kernel + standard axioms; the model side evaluates big segments as absorb/target of the "
+         "stream (RHS of theorem C01) in 4 KiB pieces, not through the lane scheduler; machine widths of lens[] are "
+         "outside the model (Nat) and are covered by the big runs + pack lemmas. quick = 2^29 crossing only.",
+    technique="Lean 4 proof over hand-written model + big-stream differential correspondence",
+    engine="HashMB", ref="5 C15")
 
 REASON_TODO = "check not built yet in this session (work in progress, see DESIGN.md status section)"
 
